@@ -15,14 +15,24 @@ META = {
             "identities on the transcribed coefficient formulas); vel/acc/jer outputs and the c1/c2/c3 accessors are the "
             "successive derivatives (Coquelicot is_derive) of the position polynomial; a_poly_eval_ = Horner value = explicit "
             "sum for every length, evar = eval on the reversed list, swap = reversal (involution). Tie: bit-exact binary64 "
-            "execution of the same Gallina terms vs the C on generated inputs. PARTIAL: the floating-point rounding error at "
-            "the end time is measured against exact rationals, not proved. ROUNDING (C15_horner_rounding_bound*, "
+            "execution of the same Gallina terms vs the C on generated inputs. PARTIAL: for the SEPTIC generator the floating-point "
+            "rounding error at the end time is measured against exact rationals, not proved (cubic and quintic: proved in the "
+            "rounding model, see END-TO-END below). ROUNDING (C15_horner_rounding_bound*, "
             "C15_evar_/poly_wrappers_rounding_bound): for every coefficient count n+1 and all real c, x, the same Horner term "
             "with each operation followed by a rounding rnd differs from its exact value by at most ((1+eps)^(2n)-1) sum|c_i||x|^i "
             "+ 2 eta (1+eps)^(2n) sum_{j<n}|x|^j (<= gamma_2n form when 2n eps<1), proved in the standard rounding model "
             "|rnd x - x| <= eps|x| + eta with gradual underflow, overflow excluded; IEEE binary64 round-to-nearest-even satisfies "
-            "that model with eps=2^-53, eta=2^-1075 by Flocq (C15_binary64_satisfies_model) - the rounding of the generators' "
-            "coefficient formulas and the step from the rounded-real term to the C's binary64 run remain unproved.",
+            "that model with eps=2^-53, eta=2^-1075 by Flocq (C15_binary64_satisfies_model) - the step from the rounded-real "
+            "term to the C's binary64 run remains unproved. END-TO-END (C15_traj3_end_rounding_bound[_binary64|_weighted], "
+            "C15_traj3_coeff_rounding, C15_traj3_start_exact, C15_traj5_end_rounding_bound[_binary64]; coq/C15/TrajRound.v): in the same "
+            "rounding model, for every rnd with eps<=2^-20, eta<=1, every ts<>0 and all real boundary data, the trajectory whose "
+            "coefficients are COMPUTED by the trajpoly3_gen term with every operation (and integer constant) rounded and which is then "
+            "evaluated at t=ts by the rounded Horner term satisfies |pos(ts)-p1| <= 120 eps S + 48 eta (1+1/|ts|)^3 (1+|ts|)^3 W and "
+            "|vel(ts)-v1| <= 240 eps S/|ts| + 192 eta (1+1/|ts|)^3 (1+|ts|)^2 W with S=|p0|+|p1|+|ts|(|v0|+|v1|), W=1+|p1-p0|+|v0|+|v1| "
+            "(sharper: 20 eps (|p0|+5|p1-p0|+|ts|(4|v0|+2|v1|)) and 20 eps (8|v0|+5|v1|+12|p1-p0|/|ts|)), pos(0)=rnd p0 and vel(0)=rnd v0 "
+            "(exact for format numbers), and for the quintic (extra hypothesis rnd 2 = 2, true for binary64) position/velocity/"
+            "acceleration at ts are within 1056 eps S5, 3960 eps S5/|ts|, 11880 eps S5/|ts|^2 (+ explicit eta terms), "
+            "S5=S+|ts|^2(|a0|+|a1|); binary64 instances by Flocq; overflow excluded; the septic generator is not covered.",
     "note": "Trusted: Coq kernel/vm_compute (primitive floats), the standard real-number axioms (sig_forall_dec, sig_not_dec, "
             "functional_extensionality_dep, classic via Coquelicot) as listed by Print Assumptions; the 'same term, different "
             "NumOps instance' argument between R and binary64; the hand transcription coq/C15/PolyDefs.v, validated bit for bit "
